@@ -288,7 +288,7 @@ def J6(inp):
     """kill while the journal file is being created: whatever prefix of the primitive writes reached the disk, the next start
     opens the journal without an exception and finds nothing that was not stored (the file is empty, holds the header, or holds
     the header and the first record)."""
-    fs = disk.install_journal(False)
+    fs = disk.install_journal(inp.concrete)          # the replay runs on concrete bytes: an exception that only the symbolic blobs cause does not reproduce
     fs.mark()
     j, exc = guard(J.FileJournal, 'jf')
     rec = disk.payload(fs, 1, inp.int('size', 0, 40))
